@@ -24,3 +24,4 @@ def run(idx, rep, tier):
     aabbtree.r_bruteforce(idx, rep)      # the brute-force broad phase is the reference the tree queries are interchangeable with
     generic2.r_indextruth(idx, rep, [m.name for m in idx.lib_modules()], floor=4)
     unpack.r_unpack(idx, rep, floor=4)
+    generic2.r_axisuniform(idx, rep, [m.name for m in idx.lib_modules()], floor=0)      # hand-unrolled per-axis box tests treat the axes alike
